@@ -188,7 +188,7 @@ ATTR_VARIANTS = [
 ]
 
 
-def oracle_docs(a):
+def _oracle_docs_failures(a):
     import io
 
     from lxml import etree
@@ -215,7 +215,7 @@ def oracle_docs(a):
     try:
         dtd = etree.DTD(io.StringIO(dtd_text))
     except etree.DTDParseError:
-        return None
+        return
     passes = [({}, False)]
     if restricted(c):
         passes.append(({"compound_fields": True}, True))
@@ -223,7 +223,8 @@ def oracle_docs(a):
         g = CG.run_pipeline({"s.dtd": dtd_text}, **opts)
         try:
             if g.error is not None:
-                return f"generation failed ({opts}): {type(g.error).__name__}: {g.error}"
+                yield f"generation failed ({opts}): {type(g.error).__name__}: {g.error}"
+                continue
             R = g.classes()["R"]
             ctx = XmlContext()
             parser = XmlParser(context=ctx, config=ParserConfig(fail_on_unknown_properties=True, fail_on_unknown_attributes=True, fail_on_converter_warnings=True))
@@ -246,7 +247,8 @@ def oracle_docs(a):
                 try:
                     obj = parser.from_string(doc, R)
                 except Exception as e:  # noqa: BLE001
-                    return f"DTD-valid document {doc} rejected ({opts}): {type(e).__name__}: {e}"
+                    yield f"DTD-valid document {doc} rejected ({opts}): {type(e).__name__}: {e}"
+                    continue
                 # DTDs are prefix-sensitive: serialise with the prefixes the DTD declares
                 user_map = {p: f"urn:{p}" for p in ns["decls"]} if ns else None
                 out = XmlSerializer(context=ctx).render(obj, ns_map=user_map)
@@ -254,7 +256,8 @@ def oracle_docs(a):
                 got = [(ch.tag, etree.tostring(ch, method="c14n", with_tail=False)) for ch in back]
                 exp = [(ch.tag, etree.tostring(ch, method="c14n", with_tail=False)) for ch in root]
                 if sorted(got) != sorted(exp):
-                    return f"document {doc} re-serialised with other content ({opts}): {out}"
+                    yield f"document {doc} re-serialised with other content ({opts}): {out}"
+                    continue
                 # attribute defaults and fixed values materialised as the DTD prescribes
                 exp_attrs = dict(given)
                 for i in attrs:
@@ -268,16 +271,30 @@ def oracle_docs(a):
                 if ns:
                     exp_attrs["{urn:%s}title" % ns["decls"][-1]] = f"T{len(w)}"
                 if dict(back.attrib) != exp_attrs:
-                    return f"document {doc}: attributes after the round trip {dict(back.attrib)}, the DTD prescribes {exp_attrs}"
+                    yield f"document {doc}: attributes after the round trip {dict(back.attrib)}, the DTD prescribes {exp_attrs}"
+                    continue
                 if ordered:
                     if got != exp:
-                        return f"document {doc} re-serialised in another element order with compound fields: {out}"
+                        yield f"document {doc} re-serialised in another element order with compound fields: {out}"
+                        continue
                     if not dtd.validate(back):
-                        return f"document {doc} re-serialised as {out}, which is not DTD-valid"
+                        yield f"document {doc} re-serialised as {out}, which is not DTD-valid"
+                        continue
         finally:
             g.close()
-    return None
+    return
 
+
+
+def oracle_docs(a):
+    """the first failure no listed finding covers, else the first failure, else None"""
+    first = None
+    for msg in _oracle_docs_failures(a):
+        if first is None:
+            first = msg
+        if not covered_docs(a, msg):
+            return msg
+    return first
 
 def _el(n, o="once"):
     return {"n": n, "o": o}
